@@ -2,6 +2,7 @@
 package main
 
 import (
+	"fmt"
 	"encoding/json"
 	"errors"
 	"math"
@@ -164,10 +165,44 @@ func run(c *core.Case, st *core.CaseStats, seed int64) {
 			UniqueKey []int `json:"uniquekey"`
 			Filter    []int `json:"filter"`
 			Index     []int `json:"index"`
+			UniqueNaN []int `json:"uniquenan"`
 		}
 		json.Unmarshal(c.Out, &o)
 		if len(s) > 1 {
 			st.Nontrivial++
+		}
+		// float elements, 2 = NaN: a NaN is no duplicate of anything, itself included
+		{
+			toF := func(x []int) []float64 {
+				out := make([]float64, len(x))
+				for i, v := range x {
+					out[i] = float64(v)
+					if v == 2 {
+						out[i] = math.NaN()
+					}
+				}
+				return out
+			}
+			same := func(a, b []float64) bool {
+				if len(a) != len(b) {
+					return false
+				}
+				for i := range a {
+					if a[i] != b[i] && !(math.IsNaN(a[i]) && math.IsNaN(b[i])) {
+						return false
+					}
+				}
+				return true
+			}
+			in := map[string]interface{}{"s": s, "elements": "float64, 2 = NaN"}
+			var g []float64
+			if guard("Unique", in, func() { g = slicez.Unique(nil, toF(s)) }) && !same(g, toF(o.UniqueNaN)) {
+				rep("Unique", "value", in, o.UniqueNaN, fmt.Sprint(g))
+			}
+			fa := toF(s)
+			if guard("Unique", in, func() { g = slicez.Unique(fa[:0], fa) }) && !same(g, toF(o.UniqueNaN)) {
+				rep("Unique", "value", map[string]interface{}{"s": s, "elements": "float64, 2 = NaN", "dst": "s[:0]"}, o.UniqueNaN, fmt.Sprint(g))
+			}
 		}
 		key := func(e int) int { return e % 2 }
 		odd := func(e int) bool { return e%2 == 1 }
